@@ -27,6 +27,11 @@ def extract_scope(source, project):
     scope = SourceScope(source)
     extract(source.tree, scope.flow)
     scope.resolve_star_imports(project)
+    # resolve the name tables region by region, in the order the regions were
+    # created: a query near the end of a long module would otherwise recurse
+    # through every region before it and hit the recursion limit
+    for flow in scope._all_flows:
+        flow.names
     return scope
 
 
